@@ -416,6 +416,31 @@ def _format_table(mod, name):
         out.append((ks, f'{v.value.id}.{v.attr}'))
     return out
 
+KNOWN_DECORATORS = {'property', 'abstractmethod', 'staticmethod', 'classmethod'}
+
+def _decorations(rel, tree):
+    """decorators the translator does not know (a decorator such as functools.lru_cache changes what the function *is*:
+    the model of its body no longer describes the callable), and module-level re-bindings of a defined function"""
+    out = []
+    defined = {n.name for n in tree.body if isinstance(n, (ast.FunctionDef, ast.ClassDef))}
+    for n in ast.walk(tree):
+        if isinstance(n, (ast.FunctionDef, ast.AsyncFunctionDef)):
+            for d in n.decorator_list:
+                txt = ast.unparse(d)
+                if txt not in KNOWN_DECORATORS and not txt.endswith('.setter'):
+                    out.append((f'{rel}:{n.name}', '@' + txt))
+        elif isinstance(n, ast.ClassDef):
+            for d in n.decorator_list:
+                txt = ast.unparse(d)
+                if not (txt == 'dataclass' or txt.startswith('dataclass(')):
+                    out.append((f'{rel}:{n.name}', '@' + txt))
+    for st in tree.body:
+        if isinstance(st, ast.Assign):
+            for t in st.targets:
+                if isinstance(t, ast.Name) and t.id in defined:
+                    out.append((f'{rel}:{t.id}', 're-bound: ' + ast.unparse(st.value)[:80]))
+    return out
+
 @generator('LoadTables.lean')
 def gen_load_tables(src: Path) -> str:
     mod = parse(src, LOADERS)
@@ -498,6 +523,14 @@ def gen_load_tables(src: Path) -> str:
     L.append('/-- `serializers` / `deserializers` of dump_load.py: format ↦ library function -/')
     L.append('def serializers : List (String × String) := ' + _lean_list(f'({lean_str(a)}, {lean_str(b)})' for a, b in ser))
     L.append('def deserializers : List (String × String) := ' + _lean_list(f'({lean_str(a)}, {lean_str(b)})' for a, b in des))
+    L.append('')
+    deco = []
+    for rel in (LOADERS, 'dump_load.py', CDL, ELEMENTS, COMPONENTS, 'Network/network.py', 'Circuit/circuit.py'):
+        deco += _decorations(rel, parse(src, rel))
+    L.append('/-- functions / classes of the loader modules that carry a decorator the translator does not know (anything but')
+    L.append('    `property`, `abstractmethod`, `staticmethod`, `classmethod`, `dataclass`), or that are re-bound at module level:')
+    L.append('    the hand-written model describes the *body*; a wrapper (a cache, say) makes the callable something else -/')
+    L.append('def decoratedFunctions : List (String × String) := ' + _lean_list(f'({lean_str(a)}, {lean_str(b)})' for a, b in deco))
     L.append('')
     L.append('end CC.Gen.Load')
     return '\n'.join(L) + '\n'
@@ -1404,6 +1437,14 @@ def gen_effects(src: Path) -> str:
     L.append('/-- callees outside the analysed modules and outside the allow-list that receive an aliased argument')
     L.append('    (classified "may write its arguments") -/')
     L.append('def unknownCalls : List (String × String) := [' + ', '.join(f'({lean_str(a)}, {lean_str(b)})' for a, b in unknown) + ']')
+    L.append('')
+    deco = []
+    for rel in EFFECT_SCOPE + EFFECT_SUPPORT:
+        deco += _decorations(rel, parse(src, rel))
+    L.append('/-- functions / classes of the analysed modules with a decorator outside {property, abstractmethod, staticmethod,')
+    L.append('    classmethod, dataclass}, or re-bound at module level: the summary describes the function body, a wrapper may keep')
+    L.append('    state of its own (functools.lru_cache does) -/')
+    L.append('def unknownDecorators : List (String × String) := [' + ', '.join(f'({lean_str(a)}, {lean_str(b)})' for a, b in deco) + ']')
     L.append('')
     L.append('/-- calls through a callable parameter / dataclass field, resolved to its default or functools.partial binding;')
     L.append('    callables supplied by the caller are assumed not to write their arguments -/')
